@@ -146,13 +146,12 @@ func Load(repo string) (*Ctx, error) {
 				if gd, ok := d.(*ast.GenDecl); ok && gd.Tok == token.VAR {
 					for _, sp := range gd.Specs {
 						vs := sp.(*ast.ValueSpec)
-						if len(vs.Values) != len(vs.Names) {
-							continue
-						}
 						for i, n := range vs.Names {
 							if obj, ok := p.TypesInfo.Defs[n].(*types.Var); ok {
-								c.varInits[obj] = vs.Values[i]
-								c.varPkg[obj] = p
+								c.varPkg[obj] = p // declared in the repository: zero-valued unless initialised
+								if len(vs.Values) == len(vs.Names) {
+									c.varInits[obj] = vs.Values[i]
+								}
 							}
 						}
 					}
